@@ -61,7 +61,9 @@ extern int mpt_convert_string(const char *from, MPT_TYPE(type) type, void *dest)
 		return len;
 	}
 	if (type == MPT_ENUM(TypeValFmt)) {
-		return mpt_valfmt_get(dest, from);
+		MPT_STRUCT(value_format) tmp;
+		/* query only: parse into a local format */
+		return mpt_valfmt_get(dest ? dest : &tmp, from);
 	}
 	if (type != 's') {
 		const char *txt = from;
